@@ -193,6 +193,7 @@ class EIO(Engine):
                 for pre in (0, 2):
                     self.queue.append({'k': 'fromfile', 'n': n, 'pre': pre, 'via': 'handle'})
                     self.queue.append({'k': 'fromfile', 'n': n, 'pre': pre, 'via': 'bytesio'})
+                    self.queue.append({'k': 'fromfile', 'n': n, 'pre': pre, 'via': 'bufreader'})
         return {'mode': mode}
 
     def cleanup(self):
@@ -295,6 +296,12 @@ class EIO(Engine):
             return {'skip': 1}, []
         x = self.obj
         how = ev.get('how')
+        raw0 = None
+        if len(x) % 8 == 0 and 0 < len(x) <= 256:
+            # the object takes its own bytes once more through the property setter (same content): what the caller's bytes object
+            # builds later must not depend on what is done to the object afterwards
+            raw0 = bits_to_bytes(self.bits)
+            call(setattr, x, 'bytes', raw0)
 
         def go():
             if how == 'invert':
@@ -329,7 +336,14 @@ class EIO(Engine):
         # the reference from here on is what the object holds now (read from its store, not through the library's byte paths)
         self.bits = self._bin(self.obj)
         self.n_writes_stale = True
-        return {'st': st, 'len': len(self.bits)}, []
+        incs = []
+        if raw0 is not None:
+            for C_ in (self.B.Bits, self.B.BitArray):
+                st2, y = call(lambda: C_(bytes=raw0))
+                if st2 != 'ok' or kernel.safe_bin(y) != bytes_to_bits(raw0) or call(y.tobytes) != ('ok', raw0):
+                    incs.append(self.inc('read|route=bytes|after-the-same-bytes-were-assigned-to-an-object-since-changed|content-mismatch', n=len(raw0), how=how))
+                    break
+        return {'st': st, 'len': len(self.bits)}, incs
 
     def ev_tofile(self, ev):
         """tofile into a SimWriter with an optional fault plan."""
@@ -621,6 +635,8 @@ class EIO(Engine):
                     self.path = self.fs.new_file(data)
                 h = open(self.path, 'rb')
                 src = h
+            elif via == 'bufreader':
+                src = io.BufferedReader(io.BytesIO(data))       # an unnamed buffered stream (a pipe, a wrapped in-memory stream)
             else:
                 src = io.BytesIO(data)
             st, v = call(a.fromfile, src, n) if n is not None else call(a.fromfile, src)
